@@ -55,11 +55,11 @@ CHECKS = {
     "C12": ("exploration",
             "runtime monitoring with two independent observers per command: before/after snapshot (type, size, mtime, inode, sha-256) of data, parity, content, pool and array root, and strace -f of the real binary reduced to file-system-changing system calls; both compared with a per-command table of allowed targets and with fix's own fixed/status tags",
             "Each command x option combination is run on healthy, unsynced, damaged and partially lost arrays; every changed path and every mutating system call must fall into the command's documented set (read-only commands: log+lock only; scrub: +content; sync: +parity, never data; fix: only paths it reports, never content; pool: pool dir only; touch: content + sub-second part of zero time-stamps).",
-            "Sampled states and option combinations. atime not observed. strace sees system calls, so libc buffering cannot hide a write; the snapshot sees effects, so an unparsed system call cannot hide a change."),
+            "Sampled states and option combinations (ranged commands draw -S/-B from the array size; every non-healthy case runs a ranged fix, one of them ending inside an existing file that lies behind a missing one). Another hard-link name of a file fix reports changes with it and is allowed. atime not observed. strace sees system calls, so libc buffering cannot hide a write; the snapshot sees effects, so an unparsed system call cannot hide a change. Open finding F25 (restricted fix drops the .unrecoverable marker of a file whose bad block it skipped) is reported as KNOWN-FINDING by mechanism key."),
     "C13": ("exploration",
             "runtime monitoring of schedules: differential runs across io-cache depths and seeded schedule perturbation (source hooks), ThreadSanitizer/ASan on io-ring and hostile scan workloads, offline checker of the io.c hook event trace (slot ownership, exactly-once, order), watchdog + SIGINT for termination",
             "From one restored image sync/scrub are run single-threaded and with 3..128 ring slots under seeded yields/sleeps injected between critical sections; parity bytes, decoded state and error sets must equal the single-thread reference. Every run's hook trace (one atomic sequence counter) is checked for overlapping slot ownership, positions processed exactly once and in order, and worker silence after join. TSan (real SIMD and portable-C builds) and ASan watch the same workloads plus a scan workload built to hit the copy-detection window. Evidence reports events, hand-overs and distinct interleavings seen.",
-            "Interleavings are sampled, not enumerated: the exhaustive exploration of a ring-protocol model named in the property's observe_at is model checking and is not done (DESIGN.md section 6). Termination means 'ended within the watchdog on every run'. State comparison ignores free-space counters and inode numbers."),
+            "Interleavings are sampled, not enumerated: the exhaustive exploration of a ring-protocol model named in the property's observe_at is model checking and is not done (DESIGN.md section 6). Termination means 'ended within the watchdog on every run'. State comparison ignores free-space counters and inode numbers. Scenarios include stripes skipped by errors during sync (files removed/changed between scan and sync); a scan differential compares the scan: tags of diff under the sequential scanner and under the per-disk scan threads with perturbation. Open finding F24 (copy detection of a file whose source is updated in the same scan depends on scan-thread order) is reported as KNOWN-FINDING; runs whose scan result differs from the reference are not compared further."),
     "C14": ("exploration",
             "runtime monitor: each interlock trigger is produced on a restored image, sync is run without and with the override, and the bytes/sizes of every content and parity file plus the directory listings are compared before/after; lock exclusion is tested by holding a first command inside its run with a shim delay while a second command is started",
             "Triggers: all files of a disk missing / rewritten, a non-empty file emptied, a parity file truncated below the required size (every level in turn, emptied completely or cut at aligned and unaligned lengths, any split), blocksize / hashsize changed in the configuration, a recorded disk dropped from the configuration, lock held by another command; alone and mixed with ordinary pending changes, on every disk / level. Refusal must leave every content and parity byte untouched; with the override (or restored configuration, or after the other command ended) the same sync must proceed.",
@@ -71,7 +71,7 @@ CHECKS = {
     "C16": ("exploration",
             "differential monitoring against recorded observations of the reference version: vendored arrays written by the pristine pinned tree are checked and repaired by the current tree; digests, CRCs and parity of stored vectors are recomputed through harnesses linked with the current objects and compared with stored values and frozen reference sources",
             "12 vendored reference arrays (both hash kinds, hash sizes 16/8/4/2, 1..6 parities and z, split layouts, formats 2 and 3, migration in progress, fragmented allocation): check must be clean and fix must reproduce the stored bytes/mtimes/links after removing device subsets (all subsets of size <= N in thorough). 8 seeds x lengths 0..1100 x 2 hash kinds, CRC-32C table and SSE4.2 variants for lengths 0..1100, 180 parity vectors over nd 1..251, np 1..6, both modes.",
-            "Reference material generated once from the pristine pinned tree before any fix commit. 'All future versions' is decided one tree at a time."),
+            "Reference material generated from the pristine pinned tree (arrays and vectors before any fix commit; the 60 reference-written content files of part (c) later, from a build of a worktree of the pinned commit e695936: each is the reference's test-rewrite of a constructed boundary state together with what the reference prints for it; the tree under test must load it, print the same and write it back bit for bit). 'All future versions' is decided one tree at a time."),
     "C17": ("exploration",
             "runtime monitor with a twin array: the same history is applied to a single-file and a split configuration; split files cut at the independently decoded recorded sizes are compared byte for byte with the single-file parity, plus alignment/size-history invariants, the parity oracle and loss-of-a-split recovery",
             "Twin histories with growth and shrinkage across split boundaries, 2..8 splits per level, unaligned per-file limits hit mid-growth, loss of a split or a disk followed by fix, and removal of unused trailing splits from the configuration. After every sync: recorded split sizes block aligned, concatenation equals the single-file parity on every used stripe, only the last used split changes size, C06 oracle holds on the split array.",
